@@ -158,9 +158,22 @@ def main(argv):
   bad = [r for r in results if not r["ok"]]
   out = os.path.join(boot.VERIF, "mutants",
                      "seeded_results.json" if args.seeded else "results.json")
+  # a partial run (--id / --only) updates the stored results entry by entry
+  # instead of replacing the file
+  merged = results
+  if args.id or args.only:
+    try:
+      with open(out) as f:
+        prev = json.load(f).get("results", [])
+    except Exception:
+      prev = []
+    byid = {r["id"]: r for r in prev}
+    for r in results:
+      byid[r["id"]] = dict(r, repo_head=boot.repo_head())
+    merged = [byid[k] for k in sorted(byid)]
   try:
     with open(out, "w") as f:
-      json.dump({"results": results, "repo_head": boot.repo_head()}, f,
+      json.dump({"results": merged, "repo_head": boot.repo_head()}, f,
                 indent=1)
   except OSError:
     pass
